@@ -290,17 +290,73 @@ Theorem C14_applycal_all_default_dotted :
 Proof. exact (conj applycal_all (conj applycal_default applycal_dotted)). Qed.
 Print Assumptions C14_applycal_all_default_dotted.
 
-(* STREAM DISCOVERY: L1 = the first archived sdp.cal stream ('cal' if none); L2 = one <stream>_<target>_selfcal
-   substream per target of the first sdp.continuum_image stream that has targets *)
+(* STREAM DISCOVERY over the WHOLE LIST sdp_archived_streams (Model/CalSelect.v `discover`: the walk of
+   _register_standard_cal_streams, whose guards / stream types / default / suffix are regenerated from the source on
+   every run).  An archived stream is (name, stream_type, targets) with targets = None when the attribute is absent,
+   Some l = the values of the dict.  Names are non-empty.
+   For EVERY list - several sdp.cal streams, several imagers, imagers whose `targets` is empty or absent, streams of
+   other types, in any order - the walk returns the documented choice `spec_discover` (written without anything from
+   the source): L1 = the first sdp.cal stream ('cal' if none), L2 = the <imager>_<target>_selfcal substreams, one per
+   target in order, of the first sdp.continuum_image stream THAT HAS self-cal targets. *)
+Theorem C14_discover_is_spec :
+  forall l, (forall a, In a l -> as_name a <> "") -> discover l = spec_discover l.
+Proof. exact discover_is_spec. Qed.
+Print Assumptions C14_discover_is_spec.
+
+(* the same in "first ... wherever the others stand" form: an imager WITHOUT targets before the productive one is
+   passed over (seeded C14-11 takes it and loses L2); no productive imager anywhere = no L2; L2 exists iff SOME
+   archived imager has targets *)
 Theorem C14_discover_streams :
-  (forall pre a post, (forall b, In b pre -> as_type b <> "sdp.cal") -> as_type a = "sdp.cal" -> as_name a <> "" ->
+  (forall pre a post, (forall b, In b (pre ++ a :: post) -> as_name b <> "") ->
+     (forall b, In b pre -> as_type b <> "sdp.cal") -> as_type a = "sdp.cal" ->
      fst (discover (pre ++ a :: post)) = as_name a) /\
-  (forall l, (forall b, In b l -> as_type b <> "sdp.cal") -> fst (discover l) = "cal") /\
-  (forall pre a post, (forall b, In b pre -> as_type b <> "sdp.continuum_image" \/ as_targets b = []) ->
-     as_type a = "sdp.continuum_image" -> as_targets a <> [] ->
-     snd (discover (pre ++ a :: post)) = map (selfcal_name (as_name a)) (as_targets a)).
-Proof. exact (conj discover_l1_first (conj discover_l1_default discover_l2_first)). Qed.
+  (forall l, (forall b, In b l -> as_name b <> "") ->
+     (forall b, In b l -> as_type b <> "sdp.cal") -> fst (discover l) = "cal") /\
+  (forall pre a post x tl, (forall b, In b (pre ++ a :: post) -> as_name b <> "") ->
+     (forall b, In b pre -> as_type b <> "sdp.continuum_image" \/ as_targets b = None \/ as_targets b = Some []) ->
+     as_type a = "sdp.continuum_image" -> as_targets a = Some (x :: tl) ->
+     snd (discover (pre ++ a :: post)) = map (fun t => as_name a ++ "_" ++ t ++ "_selfcal") (x :: tl)) /\
+  (forall l, (forall b, In b l -> as_name b <> "") ->
+     (forall b, In b l -> as_type b <> "sdp.continuum_image" \/ as_targets b = None \/ as_targets b = Some []) ->
+     snd (discover l) = []) /\
+  (forall l, (forall b, In b l -> as_name b <> "") ->
+     (snd (discover l) <> [] <-> exists a, In a l /\ productive_imager a = true)).
+Proof.
+  exact (conj discover_l1_first (conj discover_l1_default (conj discover_l2_first (conj discover_l2_none
+         discover_l2_exists_iff)))).
+Qed.
 Print Assumptions C14_discover_streams.
+
+(* only the sdp.cal streams and the imagers with targets matter, and only their relative order: any other entry
+   (imagers without targets, other stream types, unknown names) may be inserted into or dropped from
+   sdp_archived_streams anywhere without changing L1 / L2 *)
+Theorem C14_discover_irrelevant_streams :
+  forall l, (forall b, In b l -> as_name b <> "") -> discover l = discover (filter relevant_stream l).
+Proof. exact discover_irrelevant_streams. Qed.
+Print Assumptions C14_discover_irrelevant_streams.
+
+(* which aliases a data set offers ('l1' / 'l2' in cal_freqs): the registration = the documented rule over the
+   documented L1 / L2 streams (attributes of the L1 stream / of the FIRST self-cal substream complete) *)
+Theorem C14_registered_aliases :
+  forall tel archived, (forall n, In n archived -> n <> "") ->
+  map cs_name (registered tel archived) = spec_aliases tel archived.
+Proof. exact registered_aliases. Qed.
+Print Assumptions C14_registered_aliases.
+
+(* hence: a product of the default list whose correction sensors exist for every data input IS applied by 'default'
+   (l2.GPHASE as soon as SOME imager's self-cal substreams are registered and carry GPHASE for the data inputs) *)
+Theorem C14_default_applies_available :
+  forall streams inputs p, In p default_cal_products -> product_ok (sensor_available streams) inputs p = true ->
+  exists l, applycal_products (RStr "default") streams inputs = Applied l /\ In p l.
+Proof. exact default_applies_available. Qed.
+Print Assumptions C14_default_applies_available.
+
+(* the regenerated decisions of the walk are the documented ones *)
+Theorem C14_discover_decisions :
+  (disc_cal_type, disc_image_type, disc_l1_default, disc_selfcal_suffix) =
+  ("sdp.cal", "sdp.continuum_image", "cal", "_selfcal") /\ disc_l1_guarded = true /\ disc_l2_guarded = true.
+Proof. exact discover_decisions. Qed.
+Print Assumptions C14_discover_decisions.
 
 (* DISPATCH BY PRODUCT TYPE (Model/CalDispatch.v; `cal_dispatch` is regenerated from the if/elif chain of
    calc_correction_per_input on every run): K -> delays, B -> bandpass, G -> flux calibration then interpolation over
